@@ -43,9 +43,10 @@ pub const FIXED_FENS: &[&str] = &[
     "4k3/8/8/6Pp/8/8/8/4K3 w - h6 0 1",
     "4k3/8/8/8/Pp6/8/8/4K3 b - a3 0 1",
     "4k3/8/8/8/6pP/8/8/4K3 b - h3 0 1",
-    // stalemate shape: only pseudo-legal move is an illegal en passant
-    "8/8/8/K1pP3r/1p6/1P6/8/7k w - c6 0 1",
-    "7k/5Q2/8/8/r2Pp1K1/8/8/8 b - d3 0 2",
+    // stalemate shape: the only pseudo-legal move is an en passant that uncovers the king
+    "2b4k/p7/1n6/KPp4r/8/8/8/8 w - c6 0 1",
+    "k4b2/7p/6n1/r4pPK/8/8/8/8 w - f6 0 1",
+    "2b4k/p7/1n6/KPp4q/8/8/8/8 w - c6 150 9",
     // pins in all directions
     "4k3/4r3/8/8/4R3/8/8/4K3 w - - 0 1",
     "4k3/8/8/b7/8/2N5/8/4K3 w - - 0 1",
@@ -888,5 +889,33 @@ pub fn fam_san_crowd(rng: &mut Rng) -> MPos {
     let extra = rng.below(5);
     decorate(rng, &mut p, extra);
     random_counters(rng, &mut p);
+    p
+}
+
+/// G3: stalemate shapes whose only pseudo-legal move is an en passant that uncovers the king on
+/// the rank; decorated with bystanders of the side not to move, all four orientations.
+pub fn fam_ep_stalemate(rng: &mut Rng) -> MPos {
+    let base = *rng.pick(&["2b4k/p7/1n6/KPp4r/8/8/8/8 w - c6 0 1", "2b4k/p7/1n6/KPp4q/8/8/8/8 w - c6 0 1", "2b4k/p7/1n6/KPp3r1/8/8/8/8 w - c6 0 1", "2b5/p7/1n6/KPp1r3/8/8/8/7k w - c6 0 1"]);
+    let mut p = mfen::from_fen(base).expect("harness: bad stalemate base");
+    let extra = rng.below(4);
+    for _ in 0..extra {
+        let k = *rng.pick(b"PNBN");
+        // only on the far side of the board so that the rank-5 geometry stays intact
+        for _ in 0..10 {
+            let s = sq(4 + rng.below(4) as u8, rng.below(3) as u8 + 1);
+            if p.at(s) == EMPTY {
+                p.sq[s as usize] = man(false, k);
+                break;
+            }
+        }
+    }
+    // mirror first, then break the castling-free symmetry requirement trivially (no rights here)
+    if rng.chance(1, 2) {
+        p = p.mirror_h();
+    }
+    if rng.chance(1, 2) {
+        p = p.mirror_v();
+    }
+    p.halfmove = *rng.pick(&[0u16, 3, 99, 100, 149, 150]);
     p
 }
